@@ -95,9 +95,11 @@ func atomsString(w *World, as []atom) string {
 
 // encodedBy: v is a string produced by an encoder of the standard library applied
 // to a byte source. Recognised idioms:
-//   string(dst) where enc.Encode(dst, src) and dst = make([]byte, enc.EncodedLen(len(x)))
-//   enc.EncodeToString(src)
-//   hex.EncodeToString(src)
+//
+//	string(dst) where enc.Encode(dst, src) and dst = make([]byte, enc.EncodedLen(len(x)))
+//	enc.EncodeToString(src)
+//	hex.EncodeToString(src)
+//
 // Returns the encoder name ("base64.StdEncoding", "hex") and the source value.
 func encodedBy(w *World, fn *ssa.Function, v ssa.Value) (string, ssa.Value, string) {
 	v = origin(v)
